@@ -1,5 +1,5 @@
 # replay of a bounded stand-in violation (C11): re-run native/c11_compilers.py
 import sys
-print("gaussian_merge n=3 gates=[('MZgate', (0, 2)), ('Xgate', (1,)), ('BSgate', (1, 2)), ('Vgate', (0,)), ('Rgate', (2,)), ('Xgate', (1,)), ('Sgate', (1,)), ('Kgate', (0,)), ('Sgate', (2,)), ('BSgate', (2, 0)), ('MZgate', (0, 1))]: compiled program gives different reduced states on the fock backend (max difference 0.0565 at cutoff 7, 0.0565 at cutoff 11)")
+print("gaussian_merge n=4 gates=[('BSgate', (3, 1)), ('MZgate', (1, 3)), ('BSgate', (2, 0)), ('CKgate', (1, 2)), ('Sgate', (2,)), ('Dgate', (2,)), ('Kgate', (1,)), ('BSgate', (2, 3)), ('S2gate', (2, 1)), ('Dgate', (3,)), ('CKgate', (2, 1)), ('Sgate', (1,))]: compile raised NetworkXUnfeasible: Graph contains a cycle or graph changed during iteration")
 print('REPLAY-VIOLATION')
 sys.exit(1)
